@@ -88,6 +88,10 @@ def regenerate():
                  300, env=IMPL_ENV)
     if rc != 0:
         raise BuildError("extract_io_tables failed:\n" + out)
+    # read sequences and display tables of the fixed-layout sections, extracted from the source text (fail-closed per function)
+    rc, out = sh([PY, os.path.join(VERIF, "harness", "extract_layouts.py"), os.path.join(COQ, "Gen", "Layouts.v")], 60, env=IMPL_ENV)
+    if rc != 0:
+        raise BuildError("extract_layouts failed:\n" + out)
     # the selection code, translated from its source text (fail-closed Python-ast translator)
     rc, out = sh([PY, os.path.join(VERIF, "harness", "translate_select.py"), os.path.join(COQ, "Gen", "SelectGen.v")], 60, env=IMPL_ENV)
     if rc != 0:
